@@ -218,7 +218,7 @@ def expected_image(src_snap, src_cls, route, dst_cls):
     order = {c: i for i, c in enumerate(CHAIN)}
     if route in ("pickle", "deepcopy"):
         return [k for k in src_snap if k != "cls"] + ["cls"]
-    if src_cls == dst_cls or (src_cls == "Conformer" and dst_cls == "Molecule"):
+    if src_cls == dst_cls or (src_cls == "Conformer" and dst_cls == "Molecule") or route in ("ctor+arrays", "ctor+assign"):
         out = [k for k in src_snap if k != "cls"]
         if src_cls == "Conformer":
             out = [k for k in out if k not in ("weights",)]
@@ -247,7 +247,7 @@ def check(recipe) -> list[Fail]:
     src_cls, route, side = recipe["src_cls"], recipe["route"], recipe["side"]
     fails: list[Fail] = []
     src, owner = build(src_cls, recipe["mol"])
-    tag = route.split(":")[0]   # root causes are keyed by route kind; classes go into the detail
+    tag = route.split(":")[0].replace("+", "_")   # root causes are keyed by route kind; classes go into the detail
     who = f"[{src_cls} -> {route}] "
     snap_src = chem.snapshot(src)
 
@@ -257,6 +257,25 @@ def check(recipe) -> list[Fail]:
         if route.startswith("ctor:"):
             dst_cls = route[5:]
             cp = _cls(dst_cls)(src)
+        elif route == "ctor+arrays":
+            # copy construction with the source's own arrays handed over explicitly
+            kw = {n: getattr(src, n) for n in (("coords",) if hasattr(src, "coords") else ()) }
+            if hasattr(src, "atomic_charges") and src_cls != "Structure":
+                kw["atomic_charges"] = src.atomic_charges
+            if hasattr(src, "weights"):
+                kw["weights"] = src.weights
+            cp = _cls(src_cls if src_cls != "Conformer" else "Molecule")(src, **kw)
+            dst_cls = src_cls if src_cls != "Conformer" else "Molecule"
+        elif route == "ctor+assign":
+            # copy, then assign the source's arrays through the public setters
+            dst_cls = src_cls if src_cls != "Conformer" else "Molecule"
+            cp = _cls(dst_cls)(src)
+            if hasattr(src, "coords"):
+                cp.coords = src.coords
+            if hasattr(src, "atomic_charges") and hasattr(cp, "atomic_charges"):
+                cp.atomic_charges = src.atomic_charges
+            if hasattr(src, "weights") and hasattr(cp, "weights"):
+                cp.weights = src.weights
         elif route == "pickle":
             cp = pickle.loads(pickle.dumps(src))
         elif route == "deepcopy":
@@ -411,6 +430,8 @@ def strat(tier):
             rs += ["ctor:Molecule"] * 3 + ["ctor:Structure"]
         if src_cls in ("Structure", "Molecule", "Conformer"):
             rs += ["concat", "or"]
+        if src_cls in ("CartesianGeometry", "Structure", "Molecule", "ConformerEnsemble", "Conformer"):
+            rs += ["ctor+arrays", "ctor+assign"]
         return rs
 
     @st.composite
